@@ -11,6 +11,10 @@ EXPLANATION = (
     "by + and *) whose `too large` arm does not reach the allocation; slice bounds are decided by the BOUNDS obligations when that engine is enabled; "
     "(3) RECUR — self-recursive decoders carry a depth bound. Bit-exact equality of decode(encode(v)) is not decided."
     " C25.5: per WalRecord kind the encoder writes its named fixed-width fields in the order the decoder assigns them."
+    " C25.6: PropertyValue::decode_recursive rejects nothing the encoder writes, as far as lengths go: every `input length < X` test that leads to "
+    "InvalidLength is matched by a read on the accepting branch that needs exactly X bytes (same term over constants, + and the same locals), and a "
+    "count tested against (or multiplied up to) the remaining input with a constant per-element size K needs K <= the fewest bytes the encoder writes "
+    "per element of that variant (fixed-width writes + 1 per nested value + 0 per variable-length run inside the encoder's loop)."
 )
 
 WALREC = "nervusdb_storage::wal::WalRecord"
@@ -299,6 +303,10 @@ def run(ctx):
                        "(capacity overflow panic or allocation-failure abort)", c.loc(), sample={"fn": b.id, "site": c.loc()})
     ctx.floor("C25.2", "input-sized allocations in the decoders", n_alloc, 2)
 
+    # ---------------- clause 6: exact rejections
+    if psw and pdsw:
+        exact_rejections(ctx, F, pe, psw, penc, pd, pdsw, pnames)
+
     # ---------------- clause 3
     for fn in (PV_DEC, DEC_BODY):
         b = F.bodies[fn]
@@ -337,6 +345,233 @@ def run(ctx):
                        "%s:%d" % (b.file, o.line),
                        sample={"fn": fn, "tag": arm, "obligation": o.desc, "needs": o.H.show(an.names) if o.H is not None else None})
     ctx.floor("C25.4", "BOUNDS obligations", len(ctx.instances["C25.4"]), 100)
+
+
+# ---------------------------------------------------------------------------------------------- C25.6 helpers
+def _term(b, op, depth=10):
+    """normal form of an integer operand: int | ("+", sorted terms) | ("l", local)"""
+    from ..facts import op_const
+    k = op_const(op)
+    if k is not None and isinstance(k.get("v"), int):
+        return k["v"]
+    l = op_local(op)
+    if l is None:
+        return ("?",)
+    return _lterm(b, l, depth)
+
+
+def _lterm(b, l, depth):
+    if depth <= 0:
+        return ("l", l)
+    sd = b.single_def(l)
+    if not sd or sd[2] != "assign":
+        return ("l", l)
+    rv = sd[3][2]
+    if rv[0] == "use" and rv[1][0] in ("c", "m"):
+        pl = rv[1][1]
+        if not pl[1]:
+            return _lterm(b, pl[0], depth - 1)
+        if len(pl[1]) == 1 and isinstance(pl[1][0], list) and pl[1][0][0] == "f" and pl[1][0][1] == 0:
+            sd2 = b.single_def(pl[0])
+            if sd2 and sd2[2] == "assign" and sd2[3][2][0] == "bin" and sd2[3][2][1] == "AddWithOverflow":
+                return _sum(_term(b, sd2[3][2][2], depth - 1), _term(b, sd2[3][2][3], depth - 1))
+        return ("l", l)
+    if rv[0] == "use" and rv[1][0] == "k":
+        return _term(b, rv[1], depth - 1)
+    if rv[0] == "cast" and rv[1] == "IntToInt":
+        return _term(b, rv[2], depth - 1)
+    if rv[0] == "bin" and rv[1] in ("Add", "AddUnchecked"):
+        return _sum(_term(b, rv[2], depth - 1), _term(b, rv[3], depth - 1))
+    return ("l", l)
+
+
+def _sum(a, c):
+    parts = []
+    k = 0
+    for t in (a, c):
+        if isinstance(t, int):
+            k += t
+        elif isinstance(t, tuple) and t and t[0] == "+":
+            for x in t[1]:
+                if isinstance(x, int):
+                    k += x
+                else:
+                    parts.append(x)
+        else:
+            parts.append(t)
+    if not parts:
+        return k
+    items = sorted(parts, key=repr) + ([k] if k else [])
+    return ("+", tuple(items)) if len(items) > 1 else items[0]
+
+
+def _is_input_len(b, l):
+    """local holds the length of the input slice parameter (_1)"""
+    r = value_root(b, l)
+    sd = b.single_def(r)
+    if not sd:
+        return False
+    if sd[2] == "assign" and sd[3][2][0] == "un" and sd[3][2][1] == "PtrMetadata":
+        return op_local(sd[3][2][2]) == 1
+    if sd[2] in ("call", "pcall"):
+        c = b.call_at(sd[0])
+        if c is not None and c.name.endswith("::len") and c.args:
+            from ..mirutil import peel_refs
+            return peel_refs(b, op_local(c.args[0])) == 1
+    return False
+
+
+def _needs_after(b, start):
+    """terms X such that a read of the input reachable from `start` needs input length >= X"""
+    from ..mirutil import peel_refs
+    out = []
+    seen = b.reachable([start]) | {start}
+    for x in seen:
+        t = b.term(x)
+        if t[0] == "assert" and t[3] == "bounds" and len(t[4]) == 2:
+            ll = op_local(t[4][0])
+            if ll is not None and _is_input_len(b, ll):
+                out.append(_sum(_term(b, t[4][1]), 1))
+        if t[0] == "call":
+            c = b.call_at(x)
+            if c is None or c.declared != "core::ops::index::Index::index" or len(c.args) < 2:
+                continue
+            if peel_refs(b, op_local(c.args[0])) != 1:
+                continue
+            o = b.origin(op_local(c.args[1])) if op_local(c.args[1]) is not None else None
+            if o and o[0] == "agg" and o[1][2].startswith("core::ops::range::"):
+                kind = o[1][2].split("::")[-1]
+                ops = o[1][4]
+                if kind == "Range":
+                    out.append(_term(b, ops[1]))
+                elif kind == "RangeTo":
+                    out.append(_term(b, ops[0]))
+                elif kind == "RangeFrom":
+                    out.append(_term(b, ops[0]))
+    return out
+
+
+def _encoder_min_elem(F, pe, region):
+    """fewest bytes written per iteration of the loop(s) in an encoder arm, or None when the arm has no loop"""
+    from ..mirutil import backward_calls
+    loop_blocks = [x for x in region if x in b_reach_self(pe, x)]
+    if not loop_blocks:
+        return None
+    total = 0
+    for x in loop_blocks:
+        c = pe.call_at(x)
+        if c is None or not c.name.endswith("::extend_from_slice") or len(c.args) < 2:
+            continue
+        srcs = backward_calls(pe, op_local(c.args[1]), depth=6)
+        w = 0
+        for sc in srcs:
+            if sc.name.endswith("::to_le_bytes") or sc.name.endswith("::to_be_bytes"):
+                ty = pe.local_ty(op_local(sc.args[0])) if sc.args and op_local(sc.args[0]) is not None else ""
+                w = max(w, {"u8": 1, "i8": 1, "u16": 2, "i16": 2, "u32": 4, "i32": 4, "u64": 8, "i64": 8, "f64": 8}.get(ty, 0))
+            elif sc.name == PV_ENC:
+                w = max(w, 1)
+        total += w
+    return total
+
+
+def b_reach_self(b, x):
+    out = set()
+    for s in b.succs(x):
+        out |= b.reachable([s]) | {s}
+    return out
+
+
+def exact_rejections(ctx, F, pe, psw, penc, pd, pdsw, pnames):
+    from ..facts import op_const
+    from ..mirutil import switch_on
+    rid = "C25.6"
+    ctx.rule(rid, "the decoder's length rejections are exactly the reads' needs; per-element size assumptions do not exceed what the encoder writes")
+    tag_of_block = {}
+    for val, tb in pdsw[1].items():
+        for x in tables.dominated_region(pd, tb, pdsw[0]):
+            tag_of_block.setdefault(x, val)
+    variant_of_tag = {t: n for n, t in penc.items()}
+    n_rej = 0
+    per_tag = {}
+    for x, blk in enumerate(pd.blocks):
+        if pd.is_cleanup(x):
+            continue
+        if not any(st[0] == "a" and st[2][0] == "agg" and st[2][1] == "adt" and st[2][2] == "nervusdb_api::DecodeError" and st[2][3] == "InvalidLength"
+                   for st in blk["s"]):
+            continue
+        preds = pd.preds(x)
+        if len(preds) != 1:
+            continue
+        sw = switch_on(pd, preds[0])
+        if sw is None or len(sw[2]) != 1:
+            continue
+        l, neg, arms, other = sw
+        tb, fb = (other, arms[0][1]) if not neg else (arms[0][1], other)
+        sd = pd.single_def(l)
+        if not sd or sd[2] != "assign" or sd[3][2][0] != "bin":
+            continue
+        op, a, c = sd[3][2][1], sd[3][2][2], sd[3][2][3]
+        if op not in ("Lt", "Gt", "Le", "Ge"):
+            continue
+        rejects_when_true = (x == tb)
+        la, lc = op_local(a), op_local(c)
+        a_len = la is not None and _is_input_len(pd, la)
+        c_len = lc is not None and _is_input_len(pd, lc)
+        tag = tag_of_block.get(x, "pre")
+        ordn = per_tag.get(tag, 0)
+        per_tag[tag] = ordn + 1
+        key = "C25.6:tag(%s):reject#%d" % (tag, ordn)
+        cont = fb if rejects_when_true else tb
+        if a_len != c_len:
+            # normalise to: reject iff len < X  (Lt(len,X) true / Gt(X,len) true / Ge(len,X) false / Le(X,len) false)
+            strict = (op == "Lt" and a_len and rejects_when_true) or (op == "Gt" and c_len and rejects_when_true) or \
+                     (op == "Ge" and a_len and not rejects_when_true) or (op == "Le" and c_len and not rejects_when_true)
+            X = _term(pd, c if a_len else a)
+            n_rej += 1
+            needs = _needs_after(pd, cont)
+            ctx.instance(rid, "tag %s: rejects when len %s %r; reads on the accepting branch need %s" % (tag, "<" if strict else "<=", X, sorted(set(map(repr, needs)))[:6]))
+            ok = strict and X in needs
+            ctx.oblige(ok, rid, key, "decoder tag %s returns InvalidLength when the input is %s %s bytes, but no read on the accepting branch needs "
+                       "exactly that many: an encoding the encoder produces can be rejected (or the test is off by one)" % (tag, "shorter than" if strict else "at most", _show(pd, X)),
+                       "%s:%d" % (pd.file, pd.line_of_block(preds[0])), sample={"tag": tag, "rejects_below": _show(pd, X), "reads_need": [_show(pd, t) for t in needs][:8]})
+            continue
+        # per-element size assumption: a constant K >= 2 dividing the remaining input or multiplying the count
+        ks = []
+        for side in (la, lc):
+            if side is None:
+                continue
+            from .c26 import bslice
+            ls, _ = bslice(pd, side, depth=8)
+            for y in ls:
+                sdy = pd.single_def(y)
+                if sdy and sdy[2] == "assign" and sdy[3][2][0] == "bin" and sdy[3][2][1] in ("Div", "Mul", "MulWithOverflow", "MulUnchecked"):
+                    for o in (sdy[3][2][2], sdy[3][2][3]):
+                        k = op_const(o)
+                        if k is not None and isinstance(k.get("v"), int) and k["v"] >= 2:
+                            ks.append(k["v"])
+        if ks:
+            n_rej += 1
+            vname = variant_of_tag.get(tag)
+            vi = pnames.index(vname) if vname in pnames else None
+            m = None
+            if vi is not None and psw and vi in psw[1]:
+                m = _encoder_min_elem(F, pe, tables.dominated_region(pe, psw[1][vi], psw[0]))
+            ctx.instance(rid, "tag %s (%s): count test assumes %s bytes per element; the encoder writes at least %s" % (tag, vname, ks, m))
+            ctx.oblige(m is not None and max(ks) <= m, rid, key, "decoder tag %s rejects a count that does not fit the remaining input at %d bytes per element, "
+                       "but the encoder writes an element of PropertyValue::%s in as few as %s bytes: a value the encoder produces is rejected "
+                       "(WAL replay fails, the stored property disappears)" % (tag, max(ks), vname, m), "%s:%d" % (pd.file, pd.line_of_block(preds[0])),
+                       sample={"tag": tag, "assumed_bytes_per_element": max(ks), "encoder_minimum": m})
+    ctx.floor(rid, "length rejections classified", n_rej, 12)
+
+
+def _show(b, t):
+    if isinstance(t, int):
+        return str(t)
+    if isinstance(t, tuple) and t and t[0] == "+":
+        return " + ".join(_show(b, x) for x in t[1])
+    if isinstance(t, tuple) and t and t[0] == "l":
+        return b.local_name(t[1]) or "_%d" % t[1]
+    return "?"
 
 
 EXTRA_DECODERS = ["nervusdb_storage::csr::decode_page_lists", "nervusdb_storage::csr::decode_segment", "nervusdb_storage::csr::segment_data_page_ids",
